@@ -186,6 +186,41 @@ func init() {
 						}
 					}
 				}})
+			// nil Go slices are arrays of length 0: @else renders, and a @break in it reaches the outer loop
+			type holder struct {
+				Tags []string
+				Rows []*rowStruct
+			}
+			var nilStrs []string
+			var nilAny []any
+			var nilNested [][]int
+			var nilRows []rowStruct
+			nilSlices := []struct {
+				name string
+				data map[string]any
+				arr  string
+			}{
+				{"nil []string", map[string]any{"xs": nilStrs}, "xs"}, {"nil []any", map[string]any{"xs": nilAny}, "xs"}, {"nil [][]int", map[string]any{"xs": nilNested}, "xs"},
+				{"nil []struct", map[string]any{"xs": nilRows}, "xs"}, {"never-set slice field", map[string]any{"h": holder{}}, "h.tags"}, {"never-set field behind a pointer", map[string]any{"h": &holder{}}, "h.rows"},
+				{"nil slice inside a slice", map[string]any{"xs": [][]int{nil, {1}}}, "xs[0]"}, {"empty non-nil", map[string]any{"xs": []int{}}, "xs"},
+			}
+			secs = append(secs, core.Section{Name: "each-nil-go-slices", Exhaustive: true, N: len(nilSlices) * 3,
+				Run: func(c *core.Ctx, i int) {
+					ns := nilSlices[i/3]
+					src, want := "<@each(t in "+ns.arr+")[{{ t }}]@else none@end>", "< none>"
+					switch i % 3 {
+					case 1:
+						src, want = "<@each(o in [1, 2]){{ o }}@each(t in "+ns.arr+")[{{ t }}]@else none@break@end;@end>", "<1 none>"
+					case 2:
+						src, want = "<{{ "+ns.arr+".len() }}@each(t in "+ns.arr+")x@end@for(k = 0; k < "+ns.arr+".len(); k++)y@else z@end>", "<0 z>"
+					}
+					c.Input(map[string]any{"source": src, "data": ns.name})
+					got := evalString(c, src, ns.data)
+					c.Nontrivial(src + ns.name)
+					if !got.Panicked && (got.Err != nil || got.Out != want) {
+						c.Violation("each-nil-go-slice", fmt.Sprintf("with %s the render gave %s, want %q", ns.name, got.Describe(), want), map[string]any{"source": src, "data": ns.name})
+					}
+				}})
 			// (2) every position of every control directive in a body of up to 4 items
 			secs = append(secs, core.Section{Name: "control-positions", Exhaustive: true, N: 2 * 4 * 5 * 5 * 3 * 2,
 				Run: func(c *core.Ctx, i int) {
@@ -446,6 +481,35 @@ func forSpecials() []model.Stmt {
 		out = append(out, model.Each{Var: "v", Arr: intArr(1, 2, 3), Body: []model.Stmt{model.Print{E: model.Var{Name: "v"}}, model.Continue{}, model.Text{S: t}}})
 		out = append(out, model.Each{Var: "v", Arr: intArr(1, 2, 3), Body: []model.Stmt{model.Print{E: model.Var{Name: "v"}},
 			model.If{Conds: []model.Expr{model.Binary{Op: "==", L: model.Var{Name: "v"}, R: lit(2)}}, Bodies: [][]model.Stmt{{model.Continue{}, model.Text{S: t}}}}, model.Text{S: "."}}})
+	}
+	// the loop object saved in a variable describes the pass it was saved in, also when read in a later pass
+	// or from an inner loop (where the name loop means the inner one)
+	prev := model.Var{Name: "prev"}
+	prevInit := model.Assign{Name: "prev", E: model.ObjLit{Keys: []string{"index", "iter", "first", "last"}, Vals: []model.Expr{lit(9), lit(9), model.Lit{V: model.Bool(false)}, model.Lit{V: model.Bool(false)}}}}
+	showPrev := []model.Stmt{model.Text{S: "("}, model.Print{E: model.Dot{X: prev, Name: "index"}}, model.Print{E: model.Dot{X: prev, Name: "iter"}}, model.Print{E: model.Dot{X: prev, Name: "first"}}, model.Print{E: model.Dot{X: prev, Name: "last"}}, model.Text{S: ")"}}
+	out = append(out, model.If{Conds: []model.Expr{lit(1)}, Bodies: [][]model.Stmt{{prevInit,
+		model.Each{Var: "v", Arr: intArr(10, 20, 30), Body: append(append([]model.Stmt{}, showPrev...), model.Assign{Name: "prev", E: model.Var{Name: "loop"}}, model.Print{E: loopField("index")})},
+		model.Text{S: "|after"}, showPrev[1], showPrev[4]}}})
+	out = append(out, model.If{Conds: []model.Expr{lit(1)}, Bodies: [][]model.Stmt{{prevInit,
+		model.Each{Var: "v", Arr: intArr(10, 20), Body: []model.Stmt{model.Assign{Name: "prev", E: model.Var{Name: "loop"}},
+			model.Each{Var: "w", Arr: intArr(1, 2, 3), Body: append(append([]model.Stmt{model.Text{S: "<"}}, showPrev...), model.Print{E: loopField("index")}, model.Text{S: ">"})}}}}}})
+	out = append(out, model.If{Conds: []model.Expr{lit(1)}, Bodies: [][]model.Stmt{{model.Assign{Name: "saved", E: model.ArrLit{}},
+		model.Each{Var: "v", Arr: intArr(5, 6, 7), Body: []model.Stmt{model.Assign{Name: "saved", E: callE(model.Var{Name: "saved"}, "append", model.Var{Name: "loop"})}}},
+		model.Each{Var: "s", Arr: model.Var{Name: "saved"}, Body: []model.Stmt{model.Print{E: model.Dot{X: model.Var{Name: "s"}, Name: "index"}}, model.Print{E: model.Dot{X: model.Var{Name: "s"}, Name: "last"}}, model.Text{S: ","}}}}}})
+	// float counters stepped with the postfix operators: a second run of the same loop starts from the same value
+	fv := model.Var{Name: "f"}
+	for _, op := range []string{"--", "++"} {
+		cmp, start, bound := ">", 2.5, 0.0
+		if op == "++" {
+			cmp, start, bound = "<", 0.5, 3.0
+		}
+		count := model.For{Init: &model.Assign{Name: "f", E: model.Var{Name: "start"}}, Cond: model.Binary{Op: cmp, L: fv, R: model.Lit{V: model.Float(bound)}},
+			Post: model.Print{E: model.Postfix{Op: op, X: fv}}, Body: []model.Stmt{model.Print{E: fv}, model.Text{S: " "}}, Else: []model.Stmt{model.Text{S: "never"}}}
+		out = append(out, model.If{Conds: []model.Expr{lit(1)}, Bodies: [][]model.Stmt{{model.Assign{Name: "start", E: model.Lit{V: model.Float(start)}},
+			model.Each{Var: "r", Arr: intArr(1, 2), Body: []model.Stmt{count, model.Text{S: "|"}}}, model.Print{E: model.Var{Name: "start"}}}}})
+		step := model.Each{Var: "g", Arr: model.Var{Name: "fs"}, Body: []model.Stmt{model.Print{E: model.Postfix{Op: op, X: model.Var{Name: "g"}}}, model.Text{S: ","}}}
+		out = append(out, model.If{Conds: []model.Expr{lit(1)}, Bodies: [][]model.Stmt{{model.Assign{Name: "fs", E: model.ArrLit{Elems: []model.Expr{model.Lit{V: model.Float(1.5)}, model.Lit{V: model.Float(2.5)}}}},
+			step, model.Text{S: "|"}, step, model.Text{S: "|"}, model.Print{E: model.Var{Name: "fs"}}}}})
 	}
 	// empty bodies, with and without @else
 	out = append(out, model.Each{Var: "v", Arr: intArr(1, 2), Body: []model.Stmt{}, Else: []model.Stmt{model.Text{S: " never"}}})
